@@ -702,6 +702,16 @@ func reflectKinds(c *Ctx, inFile string) {
 							zero = true
 						}
 					}
+					if !zero {
+						// ... or by a test that decides the same thing: the arm that leaves the variable zero cannot have been
+						// taken where the call stands (`if results != nil { v = validated }` ... `if results == nil { return }`)
+						zero = true
+						for _, sv := range P.SourcesAt(ph, in) {
+							if cz, isC := sv.(*ssa.Const); isC && cz.Value == nil {
+								zero = false
+							}
+						}
+					}
 					if good && zero {
 						ok, why = true, "the variable is either the zero Value (excluded by the comparison with reflect.Value{}) or a value whose Kind() was established"
 					}
